@@ -24,7 +24,7 @@ from props import PROPS  # noqa: E402
 def tier_params(tier):
     if tier == "thorough":
         return {"timeout_s": 3600, "mem_gb": 24, "workers": 6, "features": ["thorough"]}
-    return {"timeout_s": 600, "mem_gb": 16, "workers": 10, "features": []}
+    return {"timeout_s": 900, "mem_gb": 16, "workers": 10, "features": []}
 
 
 def write_replay_file(pid, engine, harness, label, values, features, extra=None):
@@ -252,26 +252,42 @@ def main(argv):
     known = load_known()
     clear_replay_files(pid)
     records, violations, inconclusive, known_hits = [], [], [], []
-    try:
-        r, v, inc, kh = run_e1(pid, tier, known, log)
-        records += r
-        violations += v
-        inconclusive += inc
-        known_hits += kh
-    except Exception as e:  # infrastructure failure is never a verdict
-        inconclusive.append(f"E1 infrastructure error: {e!r}"[:2000])
-    if cfg.get("e2"):
+    only = os.environ.get("VERIF_ONLY", "")  # developer switch: E1 or E2 alone (the registered commands run both)
+    e2_out = {}
+
+    def e2_job():
         try:
             import mirsym_run
-            r, v, inc, kh = mirsym_run.run(pid, tier, known, log, write_replay_file)
+            e2_out["res"] = mirsym_run.run(pid, tier, known, log, write_replay_file)
+        except Exception as e:
+            import traceback
+            traceback.print_exc()
+            e2_out["err"] = f"E2 infrastructure error: {e!r}"[:2000]
+
+    e2_thread = None
+    if cfg.get("e2") and only != "E1":
+        import threading
+        e2_thread = threading.Thread(target=e2_job)
+        e2_thread.start()
+    if only != "E2":
+        try:
+            r, v, inc, kh = run_e1(pid, tier, known, log)
             records += r
             violations += v
             inconclusive += inc
             known_hits += kh
-        except Exception as e:
-            import traceback
-            traceback.print_exc()
-            inconclusive.append(f"E2 infrastructure error: {e!r}"[:2000])
+        except Exception as e:  # infrastructure failure is never a verdict
+            inconclusive.append(f"E1 infrastructure error: {e!r}"[:2000])
+    if e2_thread is not None:
+        e2_thread.join()
+        if "err" in e2_out:
+            inconclusive.append(e2_out["err"])
+        else:
+            r, v, inc, kh = e2_out["res"]
+            records += r
+            violations += v
+            inconclusive += inc
+            known_hits += kh
 
     printed = set()
     known_out = []
